@@ -44,6 +44,14 @@ CLAIMED = {
  "C10": dict(
    text="Lean theorems on dtwSpec (which both engines return by C01/C02): non-negativity; symmetry under swapping the series together with the per-series psi entries (transpose of the recurrence); one relaxation lemma giving monotonicity in window, psi, max_step (never increases) and penalty (never decreases); self-distance zero; window=1 on equal lengths equals ED. Correspondence: the laws evaluated on related pairs of calls of both engines, each call also compared with the Lean spec.",
    note="Trusted: as C01.", technique="Lean 4 proof (pointwise induction on the recurrence) + law evaluation on the implementation", ref="§6 C10"),
+ "C11": dict(
+   text="Lean: the kernels see only cost(i,j); the multivariate routines are the same kernels at the vector cost over the flattened row-major layout, so C01-C05/C09/C10 hold verbatim for every ndim; for ndim=1 the vector cost is the univariate squared difference (grid equality); the multivariate Euclidean distance bounds multivariate DTW and is a sound pruning threshold. Correspondence: dtw_ndim.distance(_fast), warping_paths(_fast), warping_path, ub_euclidean, distance_matrix(_fast) on list-of-2-D and 3-D containers, d in 1..4, vs the model (exact, squared inner distance), vs an independent float DP (Euclidean inner distance) and vs the univariate routines for d=1.",
+   note="Trusted: as C01. 'euclidean' inner distance with ndim>1 involves a sqrt per point: compared with an independent float reference within 1e-9 and between engines within 64 ulp, not exactly.",
+   technique="Lean 4 proof (instances of the generic-cost theorems) + differential correspondence", ref="§6 C11"),
+ "C12": dict(
+   text="Lean theorems over any linearly ordered field: the mean lies within the range of the averaged points; identical values are a fixed point; the mean minimises the sum of squared deviations, hence for the alignments used by the step the summed squared deviation does not increase (fiberwise decomposition over positions); with C01 (any admissible path bounds the optimum) and C05 (the traced path is optimal) this gives the objective non-increase chain; unselected series are filtered out of the association table; bit mask packing. Executable model of one step (exact sums/counts) compared exactly with Python dba, dba(use_c) and C dtw_dba (when optimal paths are unique, decided by counting optimal paths); range / fixed-point / mask / objective / loop-bound laws evaluated on the implementation.",
+   note="The final chain Σdtw²(c') <= Σdtw²(c) is stated as three theorems (two over the cost monoid, one over the field) rather than one combined statement over WithTop K; float summation order differences beyond the integer lattice are not modelled.",
+   technique="Lean 4 proof (ordered-field arithmetic, list sums) + exact rational correspondence", ref="§6 C12"),
 }
 PENDING_REASON = "check under construction in this round (not yet registered); the technique applies, see DESIGN.md §6"
 
